@@ -22,8 +22,10 @@ Inductive dur := DNone | DWake (d : N) | DWinch (d : N).
 
 Inductive act :=
 | AWake (n : N) | AIn (toks : list N) | AWinch | ATerm | AWrite (len : N) | APause (b : bool) | AHup
-| APoll (tmo : option N) (send pending elapsed : N) (during : dur).
-  (* observed after the poll: stats.send, frames_pending(), wall-clock milliseconds *)
+| AFault (n : N)     (* the next n writes to the tty fail with EAGAIN although select reports it writable *)
+| APoll (tmo : option N) (send pending elapsed : N) (during : dur) (spins : N).
+  (* observed after the poll: stats.send, frames_pending(), wall-clock milliseconds, and how many of
+     the scripted EAGAIN failures the poll ran into *)
 
 Inductive ekind := EDrop | EDropPaused | EHup.
 
@@ -80,12 +82,14 @@ Definition during_rounds (du : dur) : list (round_env N) :=
   | DWinch _ => [mkR false [MWinch] true None false [] [] [] 1024]     (* EINTR, then the next select *)
   end.
 
-Definition sched_for (tmo : option N) (s : st) (send pending : N) (du : dur) : list (round_env N) :=
+Definition sched_for (tmo : option N) (s : st) (send pending : N) (du : dur) (spins : N) : list (round_env N) :=
   let q := flush (tq (io s)) in
   let d := send - N.of_nat (sent (io s)) in
   let accepts := resched (2 * chunks_count q + 4) q d (N.to_nat pending) in
   let expired0 := match tmo with Some 0 => true | _ => false end in
   during_rounds du
+  (* iterations in which the tty was reported writable and the write failed with EAGAIN *)
+  ++ repeat (mk_round expired0 [] (Some 0)) (N.to_nat spins)
   ++ map (fun a => mk_round expired0 [] a) accepts
   ++ match tmo with
      | Some 0 => repeat (mk_round true [] None) 3
@@ -119,13 +123,14 @@ Fixpoint model_run (s : st) (paused : bool) (acts : list act) (obs : list pobs) 
           model_run (upd_io s (mkT (write (tq t) (N.iter len (cons 0) [])) (tty t) (sent t)))
                     paused rest obs
       | AHup => model_run (arrive s MHup) paused rest obs
+      | AFault _ => model_run s paused rest obs
       | APause b => model_run s b rest obs
-      | APoll tmo send pending _ du =>
+      | APoll tmo send pending _ du spins =>
           match obs with
           | [] => None
           | o :: obs' =>
               let finite := match tmo with Some _ => true | None => false end in
-              let '(r, s', _) := poll finite s (sched_for tmo s send pending du) in
+              let '(r, s', _) := poll finite s (sched_for tmo s send pending du spins) in
               match res_obs r with
               | Some o' => if pobs_eqb o o' then model_run s' paused rest obs' else None
               | None => None
@@ -191,7 +196,8 @@ Fixpoint spec_run (o : outstanding) (hup : bool) (acts : list act) (obs : list p
       | ATerm => spec_run (mkO (o_wake o) (o_may o) (o_winch o) (o_wmay o) true (o_keys o)) hup rest obs
       | AWrite _ | APause _ => spec_run o hup rest obs
       | AHup => spec_run o true rest obs
-      | APoll tmo _ _ elapsed du =>
+      | AFault _ => spec_run o hup rest obs
+      | APoll tmo _ _ elapsed du spins =>
           (* a request issued while the thread sits in the poll is owed like any other *)
           let o := match du with
                    | DNone => o
@@ -202,6 +208,9 @@ Fixpoint spec_run (o : outstanding) (hup : bool) (acts : list act) (obs : list p
           | [] => false
           | ob :: obs' =>
               timely tmo du (owes o) elapsed &&
+              (* bounded in iterations too: with an event owed the loop does not go round on a tty that
+                 is reported writable and takes nothing *)
+              (if owes o then spins <=? 1 else true) &&
               match ob with
               | OW => (0 <? o_may o)
                       && spec_run (mkO false (o_may o - 1) (o_winch o) (o_wmay o) (o_term o) (o_keys o)) hup rest obs'
